@@ -1,5 +1,5 @@
 (* C01 - lemmas about Model/C01_Scales.v *)
-From Coq Require Import ZArith QArith Qabs Qround Bool List String Lia Lqa Lra.
+From Coq Require Import ZArith QArith Qabs Qround Bool List String Lia Lqa.
 From Verif Require Import Lib.Dyadic Gen.C01_TaiUtc Gen.C01_Const Gen.C01_Graph Spec.C01_IersTaiUtc Model.C01_Scales.
 Import ListNotations.
 Open Scope Q_scope.
@@ -50,3 +50,632 @@ Lemma constants_ok :
   is_nearest_double T_0_jd2_txt T_0_jd2_loaded = true /\
   is_nearest_double (1 / day) seconds2day_loaded = true.
 Proof. repeat split; vm_compute; reflexivity. Qed.
+
+(* ================================================================== booleans <-> propositions *)
+Lemma Qlt_b_true a b : Qlt_b a b = true <-> a < b.
+Proof.
+  unfold Qlt_b. rewrite negb_true_iff. split; intro H.
+  - apply Qnot_le_lt. intro K. apply Qle_bool_iff in K. congruence.
+  - destruct (Qle_bool b a) eqn:E; [|reflexivity]. apply Qle_bool_iff in E. exfalso. apply (Qlt_not_le _ _ H E).
+Qed.
+
+Lemma Qle_b_true a b : Qle_bool a b = true <-> a <= b.
+Proof. apply Qle_bool_iff. Qed.
+
+Lemma in_row_iff x r : in_row x r = true <-> r_start r <= x /\ x < r_end r.
+Proof. unfold in_row. rewrite andb_true_iff, Qle_b_true, Qlt_b_true. tauto. Qed.
+
+Lemma in_row_compat x x' r : x == x' -> in_row x r = in_row x' r.
+Proof.
+  intro H. apply eq_true_iff_eq. rewrite !in_row_iff. rewrite H. tauto.
+Qed.
+
+(* ================================================================== the row in force is unique *)
+Lemma chain_lower l : forall e r, chain_ok e l = true -> In r l -> e <= r_start r.
+Proof.
+  induction l as [|a t IH]; intros e r Hc Hin; [destruct Hin|].
+  cbn [chain_ok] in Hc. apply andb_true_iff in Hc. destruct Hc as [Hc Ht].
+  apply andb_true_iff in Hc. destruct Hc as [He Hlt].
+  apply Qeq_bool_iff in He. apply Qlt_b_true in Hlt.
+  destruct Hin as [->|Hin].
+  - rewrite He. apply Qle_refl.
+  - specialize (IH _ _ Ht Hin). rewrite He. apply Qlt_le_weak. eapply Qlt_le_trans; eauto.
+Qed.
+
+Lemma find_in_row l : forall e r x, chain_ok e l = true -> In r l -> in_row x r = true ->
+  find (in_row x) l = Some r.
+Proof.
+  induction l as [|a t IH]; intros e r x Hc Hin Hx; [destruct Hin|].
+  cbn [chain_ok] in Hc. apply andb_true_iff in Hc. destruct Hc as [Hc Ht].
+  cbn [find]. destruct (in_row x a) eqn:Ea.
+  - destruct Hin as [->|Hin]; [reflexivity|].
+    exfalso. pose proof (chain_lower _ _ _ Ht Hin) as Hl.
+    apply in_row_iff in Ea. apply in_row_iff in Hx. destruct Ea, Hx. lra.
+  - destruct Hin as [->|Hin]; [congruence|]. eapply IH; eauto.
+Qed.
+
+Lemma find_row_spec tbl e r x : chain_ok e tbl = true -> In r tbl -> r_start r <= x -> x < r_end r ->
+  find_row tbl x = r.
+Proof.
+  intros Hc Hin H1 H2. unfold find_row. rewrite (find_in_row tbl e r x Hc Hin); [reflexivity|].
+  apply in_row_iff. split; assumption.
+Qed.
+
+Lemma find_row_compat tbl x x' : x == x' -> find_row tbl x = find_row tbl x'.
+Proof.
+  intro H. unfold find_row. replace (find (in_row x) tbl) with (find (in_row x') tbl); [reflexivity|].
+  induction tbl as [|a t IH]; [reflexivity|]. cbn [find]. rewrite (in_row_compat x x' a H). rewrite IH. reflexivity.
+Qed.
+
+Definition table_start : Q := match table with r :: _ => r_start r | [] => 0 end.
+Lemma table_chain : chain_ok table_start table = true.
+Proof. vm_compute. reflexivity. Qed.
+
+Lemma row_unique_lemma : forall r x, In r table -> r_start r <= x -> x < r_end r -> find_row table x = r.
+Proof. intros. eapply find_row_spec; eauto using table_chain. Qed.
+
+(* two rows of the table holding the same instant are the same row *)
+Lemma row_unique_lemma2 : forall r r' x, In r table -> In r' table ->
+  in_row x r = true -> in_row x r' = true -> r = r'.
+Proof.
+  intros r r' x H H' Hx Hx'. apply in_row_iff in Hx. apply in_row_iff in Hx'.
+  rewrite <- (row_unique_lemma r x H) by tauto. apply row_unique_lemma; tauto.
+Qed.
+
+(* ================================================================== defining relation utc -> tai, against the published history *)
+Definition next_start (pub : list entry) (k : nat) : Q :=
+  match nth_error pub (S k) with Some e' => e_start e' | None => far_future end.
+
+Lemma e_value_affine e x : e_value e x == e_value e mjd0 + (x - mjd0) * (inject_Z (e_rate7 e) / inject_Z 10000000).
+Proof. unfold e_value, mjd0. field. Qed.
+
+Lemma delta_s_affine r y : delta_s r y == delta_s r 0 + y * r_fac r.
+Proof. unfold delta_s. ring. Qed.
+
+Lemma match_published_nth tbl : forall pub k e, match_published tbl pub = true -> nth_error pub k = Some e ->
+  exists r, In r tbl /\ r_start r == e_start e /\ r_end r == next_start pub k /\
+            forall x, delta_s r (x - mjd0) == e_value e x.
+Proof.
+  induction tbl as [|r t IH]; intros pub k e Hm Hk.
+  - destruct pub; [destruct k; discriminate|discriminate].
+  - destruct pub as [|e0 pt]; [discriminate|].
+    cbn [match_published] in Hm.
+    repeat (apply andb_true_iff in Hm; destruct Hm as [Hm ?]).
+    destruct k as [|k].
+    + injection Hk as <-. exists r. split; [left; reflexivity|].
+      split; [apply Qeq_bool_iff; assumption|].
+      split.
+      * unfold next_start. cbn [nth_error]. destruct pt; apply Qeq_bool_iff; assumption.
+      * intro x. rewrite delta_s_affine, e_value_affine.
+        apply Qeq_bool_iff in H1. apply Qeq_bool_iff in H0. rewrite H1, H0. reflexivity.
+    + cbn [nth_error] in Hk. destruct (IH pt k e H Hk) as [r' [Hin [H1' [H2' H3']]]].
+      exists r'. split; [right; assumption|]. split; [assumption|]. split; [|assumption].
+      unfold next_start in *. cbn [nth_error]. assumption.
+Qed.
+
+Lemma utc_tai_defining_lemma : forall k e x, nth_error published k = Some e ->
+  e_start e <= x -> x < next_start published k ->
+  utc2tai x == x + e_value e x / day_s.
+Proof.
+  intros k e x Hk H1 H2.
+  destruct (match_published_nth table published k e table_matches_published Hk) as [r [Hin [Hs [He Hv]]]].
+  unfold utc2tai, utc2tai_t, utc2tai_delta.
+  rewrite (row_unique_lemma r x Hin); [| rewrite Hs; assumption | rewrite He; assumption].
+  unfold delta_d. rewrite Hv. reflexivity.
+Qed.
+
+(* ================================================================== constant / affine hops *)
+Lemma LG_ne : ~ 1 - L_G == 0.
+Proof. intro H. vm_compute in H. discriminate. Qed.
+
+Lemma gps_tai_lemma x : gps2tai x - x == tai_minus_gps_s / day_s /\ x - tai2gps x == tai_minus_gps_s / day_s.
+Proof. unfold gps2tai, tai2gps, c_gps, tai_minus_gps_s, day_s, day. split; field. Qed.
+
+Lemma tt_tai_lemma x : tai2tt x - x == tt_minus_tai_s / day_s /\ x - tt2tai x == tt_minus_tai_s / day_s.
+Proof. unfold tai2tt, tt2tai, c_tt, tt_minus_tai_s, day_s, day. split; field. Qed.
+
+(* TCG - TT = L_G/(1-L_G) (TT - T0), stated on the TT date in both directions *)
+Lemma tcg_tt_lemma x : tt2tcg x - x == L_G / (1 - L_G) * (x - T0) /\
+                       tcg2tt x - x == - (L_G / (1 - L_G) * (tcg2tt x - T0)).
+Proof.
+  unfold tt2tcg, tcg2tt, tt2tcg_L, tcg2tt_L. split; field; exact LG_ne.
+Qed.
+
+Lemma hop_inverse_lemma x :
+  gps2tai (tai2gps x) == x /\ tai2gps (gps2tai x) == x /\
+  tai2tt (tt2tai x) == x /\ tt2tai (tai2tt x) == x /\
+  tt2tcg (tcg2tt x) == x /\ tcg2tt (tt2tcg x) == x.
+Proof.
+  unfold gps2tai, tai2gps, tai2tt, tt2tai, tt2tcg, tcg2tt, tt2tcg_L, tcg2tt_L.
+  repeat split; try ring; field; exact LG_ne.
+Qed.
+
+(* ================================================================== round trip utc -> tai -> utc: generic lemma *)
+Definition bq (r : row) : Q := r_fac r / day.
+
+Lemma delta_d_affine r x y : delta_d r y - delta_d r x == bq r * (y - x).
+Proof. unfold bq, delta_d, delta_s, day. field. Qed.
+
+Lemma bq_nonneg r : 0 <= r_fac r -> 0 <= bq r.
+Proof. intro H. unfold bq, day. apply Qle_shift_div_l; lra. Qed.
+
+Lemma mul_le_l b x y : 0 <= b -> x <= y -> b * x <= b * y.
+Proof. intros. rewrite !(Qmult_comm b). apply Qmult_le_compat_r; assumption. Qed.
+
+Lemma delta_d_mono r x y : 0 <= r_fac r -> x <= y -> delta_d r x <= delta_d r y.
+Proof.
+  intros Hf Hxy. pose proof (delta_d_affine r x y) as A. pose proof (bq_nonneg r Hf) as B.
+  assert (0 <= bq r * (y - x)) by (apply Qmult_le_0_compat; lra). lra.
+Qed.
+
+Lemma Qmax_ge_l a b : a <= Qmax a b. Proof. unfold Qmax. destruct (Qle_bool a b) eqn:E; [apply Qle_bool_iff in E; lra|lra]. Qed.
+Lemma Qmax_ge_r a b : b <= Qmax a b.
+Proof. unfold Qmax. destruct (Qle_bool a b) eqn:E; [lra|]. assert (~ a <= b) by (intro K; apply Qle_bool_iff in K; congruence). lra. Qed.
+Lemma Qmin_le_l a b : Qmin a b <= a.
+Proof. unfold Qmin. destruct (Qle_bool a b) eqn:E; [lra|]. assert (~ a <= b) by (intro K; apply Qle_bool_iff in K; congruence). lra. Qed.
+Lemma Qmin_le_r a b : Qmin a b <= b. Proof. unfold Qmin. destruct (Qle_bool a b) eqn:E; [apply Qle_bool_iff in E; lra|lra]. Qed.
+
+(* an affine function on an interval lies between its end values *)
+Lemma jump_affine r n x y : jump r n y - jump r n x == (bq n - bq r) * (y - x).
+Proof. unfold jump. pose proof (delta_d_affine r x y). pose proof (delta_d_affine n x y). lra. Qed.
+
+Lemma jump_bounds r n lo hi x : lo <= x -> x <= hi ->
+  Qmin (jump r n lo) (jump r n hi) <= jump r n x /\ jump r n x <= Qmax (jump r n lo) (jump r n hi).
+Proof.
+  intros H1 H2.
+  pose proof (jump_affine r n lo x) as A1. pose proof (jump_affine r n x hi) as A2.
+  pose proof (Qmin_le_l (jump r n lo) (jump r n hi)). pose proof (Qmin_le_r (jump r n lo) (jump r n hi)).
+  pose proof (Qmax_ge_l (jump r n lo) (jump r n hi)). pose proof (Qmax_ge_r (jump r n lo) (jump r n hi)).
+  destruct (Qlt_le_dec (bq n - bq r) 0) as [C|C].
+  - assert ((bq n - bq r) * (x - lo) <= 0).
+    { setoid_replace ((bq n - bq r) * (x - lo)) with (- ((bq r - bq n) * (x - lo))) by ring.
+      assert (0 <= (bq r - bq n) * (x - lo)) by (apply Qmult_le_0_compat; lra). lra. }
+    assert ((bq n - bq r) * (hi - x) <= 0).
+    { setoid_replace ((bq n - bq r) * (hi - x)) with (- ((bq r - bq n) * (hi - x))) by ring.
+      assert (0 <= (bq r - bq n) * (hi - x)) by (apply Qmult_le_0_compat; lra). lra. }
+    split; lra.
+  - assert (0 <= (bq n - bq r) * (x - lo)) by (apply Qmult_le_0_compat; lra).
+    assert (0 <= (bq n - bq r) * (hi - x)) by (apply Qmult_le_0_compat; lra).
+    split; lra.
+Qed.
+
+
+Lemma row_self_ok_facts r : row_self_ok r = true ->
+  0 <= r_fac r /\ r_fac r <= day /\ 0 <= delta_d r (r_start r) /\ r_start r < r_end r /\
+  bq r * dmax r <= guard r /\ bq r * (bq r * dmax r) <= eps_rt.
+Proof.
+  unfold row_self_ok. fold (bq r). intro H.
+  repeat (apply andb_true_iff in H; let K := fresh "K" in destruct H as [H K]).
+  rewrite ?Qle_b_true, ?Qlt_b_true in *. tauto.
+Qed.
+
+Lemma row_rt_ok_facts r n : row_rt_ok r n = true ->
+  row_self_ok r = true /\ 0 <= r_fac n /\ r_end r == r_start n /\
+  r_end r + dmax r < r_end n /\
+  jump_hi r n + bq r * dmax r + dmax r <= r_end r - r_start r /\
+  bq r * (jump_hi r n + bq r * dmax r) <= eps_rt /\
+  bq r * (- jump_lo r n) <= eps_rt /\
+  (is_const r = false \/ (is_const n = true /\ 0 <= jump_lo r n)).
+Proof.
+  unfold row_rt_ok. fold (bq r). intro H.
+  do 8 (apply andb_true_iff in H; let K := fresh "K" in destruct H as [H K]).
+  rewrite ?Qle_b_true, ?Qlt_b_true in *.
+  repeat (split; [first [assumption | lra]|]).
+  destruct (is_const r); [right|left; reflexivity].
+  cbn in K. apply andb_true_iff in K. destruct K as [KA KB]. apply Qle_b_true in KB. tauto.
+Qed.
+
+Lemma is_const_b r : is_const r = true -> bq r == 0.
+Proof. unfold is_const, bq. intro H. apply Qeq_bool_iff in H. rewrite H. unfold day. field. Qed.
+
+Lemma guard_nonneg r : 0 <= guard r.
+Proof. unfold guard. destruct (is_const r); [lra|]. unfold us. apply Qle_shift_div_l; lra. Qed.
+
+Lemma eps_rt_pos : 0 <= eps_rt.
+Proof. vm_compute. discriminate. Qed.
+
+Lemma eps_lt_us : eps_rt < us.
+Proof. vm_compute. reflexivity. Qed.
+
+Definition rt (tbl : list row) (u : Q) : Q := tai2utc_t tbl (utc2tai_t tbl u).
+
+Section RoundTrip.
+  Variable tbl : list row.
+  Variable e0 : Q.
+  Hypothesis Hchain : chain_ok e0 tbl = true.
+  Variable r : row.
+  Hypothesis Hr : In r tbl.
+
+  (* the TAI label of u is still inside row r *)
+  Lemma rt_caseA u : row_self_ok r = true ->
+    r_start r + guard r <= u -> u + delta_d r u < r_end r ->
+    0 <= rt tbl u - u /\ rt tbl u - u <= eps_rt /\ (is_const r = true -> rt tbl u == u).
+  Proof.
+    intros Hok D1 CA.
+    destruct (row_self_ok_facts r Hok) as (F1 & F1' & F3 & F4 & F7 & F9).
+    pose proof (guard_nonneg r) as G0. pose proof (bq_nonneg r F1) as B0.
+    assert (Hu1 : r_start r <= u) by lra.
+    assert (Hd0 : 0 <= delta_d r u) by (pose proof (delta_d_mono r (r_start r) u F1 Hu1); lra).
+    assert (Hu2 : u < r_end r) by lra.
+    assert (Hfu : find_row tbl u = r) by (eapply find_row_spec; eauto).
+    unfold rt, utc2tai_t, utc2tai_delta. rewrite Hfu.
+    set (d := delta_d r u) in *.
+    assert (Hd1 : d <= dmax r) by (unfold d, dmax; apply delta_d_mono; lra).
+    assert (Hbd : bq r * d <= bq r * dmax r) by (apply mul_le_l; assumption).
+    assert (Hbd0 : 0 <= bq r * d) by (apply Qmult_le_0_compat; assumption).
+    unfold tai2utc_t, tai2utc_delta.
+    assert (Hf1 : find_row tbl (u + d) = r) by (eapply find_row_spec; eauto; lra).
+    rewrite Hf1.
+    pose proof (delta_d_affine r u (u + d)) as A1. fold d in A1.
+    set (tmp := u + d - delta_d r (u + d)).
+    assert (Htmp : u - tmp == bq r * d) by (unfold tmp; lra).
+    assert (Hf2 : find_row tbl tmp = r) by (eapply find_row_spec; eauto; lra).
+    rewrite Hf2.
+    pose proof (delta_d_affine r tmp u) as A2. fold d in A2.
+    assert (Hres : u + d + - delta_d r tmp - u == bq r * (bq r * d)).
+    { rewrite <- Htmp. lra. }
+    assert (Hbb : bq r * (bq r * d) <= bq r * (bq r * dmax r)) by (apply mul_le_l; assumption).
+    assert (Hbb0 : 0 <= bq r * (bq r * d)) by (apply Qmult_le_0_compat; assumption).
+    split; [lra|split; [lra|]].
+    intro Hc. pose proof (is_const_b r Hc) as Hb. rewrite Hb in Hres. lra.
+  Qed.
+
+  Variable n : row.
+  Hypothesis Hn : In n tbl.
+  Hypothesis Hok : row_rt_ok r n = true.
+
+  Lemma rt_generic u : rt_dom r n u ->
+    Qabs (rt tbl u - u) <= eps_rt /\ (is_const r = true -> rt tbl u == u).
+  Proof.
+    intros [D1 D2].
+    destruct (row_rt_ok_facts r n Hok) as (Hself & F2 & F5 & F6 & F8 & F10 & F11 & F12).
+    destruct (row_self_ok_facts r Hself) as (F1 & F1' & F3 & F4 & F7 & F9).
+    pose proof (guard_nonneg r) as G0. pose proof (bq_nonneg r F1) as B0.
+    pose proof eps_rt_pos as E0.
+    assert (Sk : 0 <= skip r n /\ - jump_lo r n <= skip r n).
+    { unfold skip, jump_lo. split; [apply Qmax_ge_l|apply Qmax_ge_r]. }
+    destruct Sk as [Sk0 Sk1].
+    assert (Hu1 : r_start r <= u) by lra. assert (Hu2 : u < r_end r) by lra.
+    destruct (Qlt_le_dec (u + delta_d r u) (r_end r)) as [CA|CB].
+    - destruct (rt_caseA u Hself D1 CA) as (R1 & R2 & R3).
+      split; [|assumption]. apply Qabs_Qle_condition. split; lra.
+    - assert (Hfu : find_row tbl u = r) by (eapply find_row_spec; eauto).
+      unfold rt, utc2tai_t, utc2tai_delta. rewrite Hfu.
+      set (d := delta_d r u) in *.
+      assert (Hd0 : 0 <= d) by (pose proof (delta_d_mono r (r_start r) u F1 Hu1); unfold d; lra).
+      assert (Hd1 : d <= dmax r) by (unfold d, dmax; apply delta_d_mono; lra).
+      assert (Hbd : bq r * d <= bq r * dmax r) by (apply mul_le_l; assumption).
+      assert (Hbd0 : 0 <= bq r * d) by (apply Qmult_le_0_compat; assumption).
+      unfold tai2utc_t, tai2utc_delta.
+      assert (Hf1 : find_row tbl (u + d) = n) by (eapply find_row_spec; eauto; lra).
+      rewrite Hf1.
+      pose proof (delta_d_affine r u (u + d)) as A1. fold d in A1.
+      set (tmp := u + d - delta_d n (u + d)).
+      assert (HJ : u - tmp == jump r n (u + d) + bq r * d).
+      { unfold tmp, jump. lra. }
+      destruct (jump_bounds r n (r_end r) (r_end r + dmax r) (u + d)) as [J1 J2]; [lra|lra|].
+      fold (jump_lo r n) in J1. fold (jump_hi r n) in J2.
+      assert (Hf2 : find_row tbl tmp = r) by (eapply find_row_spec; eauto; lra).
+      rewrite Hf2.
+      pose proof (delta_d_affine r tmp u) as A2. fold d in A2.
+      assert (Hres : u + d + - delta_d r tmp - u == bq r * (u - tmp)) by lra.
+      assert (Hlo : bq r * jump_lo r n <= bq r * (u - tmp)) by (apply mul_le_l; lra).
+      assert (Hhi : bq r * (u - tmp) <= bq r * (jump_hi r n + bq r * dmax r)) by (apply mul_le_l; lra).
+      assert (Hneg : bq r * (- jump_lo r n) == - (bq r * jump_lo r n)) by ring.
+      split.
+      + rewrite Hres. apply Qabs_Qle_condition. split; lra.
+      + intro Hc. pose proof (is_const_b r Hc) as Hb. rewrite Hb in Hres. lra.
+  Qed.
+
+  (* the result of the round trip is again in row r, so that converting it forward again gives the TAI date back *)
+  Lemma rt_tai u : rt_dom r n u ->
+    Qabs (utc2tai_t tbl (rt tbl u) - utc2tai_t tbl u) <= 2 * eps_rt /\
+    (is_const r = true -> utc2tai_t tbl (rt tbl u) == utc2tai_t tbl u).
+  Proof.
+    intros D. pose proof D as [D1 D2].
+    destruct (rt_generic u D) as [R1 R2].
+    destruct (row_rt_ok_facts r n Hok) as (Hself & F2 & F5 & F6 & F8 & F10 & F11 & F12).
+    destruct (row_self_ok_facts r Hself) as (F1 & F1' & F3 & F4 & F7 & F9).
+    pose proof (guard_nonneg r) as G0. pose proof (bq_nonneg r F1) as B0.
+    pose proof eps_rt_pos as E0. pose proof eps_lt_us as E1.
+    assert (Sk0 : 0 <= skip r n) by (unfold skip; apply Qmax_ge_l).
+    apply Qabs_Qle_condition in R1. destruct R1 as [R1a R1b].
+    assert (Hin : r_start r <= rt tbl u /\ rt tbl u < r_end r).
+    { destruct (is_const r) eqn:Ec.
+      - specialize (R2 eq_refl). rewrite R2. lra.
+      - unfold guard in *. rewrite Ec in *. lra. }
+    assert (Hfu : find_row tbl u = r) by (eapply find_row_spec; eauto; lra).
+    assert (Hfr : find_row tbl (rt tbl u) = r) by (eapply find_row_spec; eauto; tauto).
+    unfold utc2tai_t, utc2tai_delta. rewrite Hfu, Hfr.
+    pose proof (delta_d_affine r u (rt tbl u)) as A.
+    assert (Hb1 : bq r <= 1). { unfold bq, day in *. apply Qle_shift_div_r; lra. }
+    assert (Hx : rt tbl u + delta_d r (rt tbl u) - (u + delta_d r u) == (rt tbl u - u) + bq r * (rt tbl u - u)) by lra.
+    assert (P1 : bq r * (rt tbl u - u) <= bq r * eps_rt) by (apply mul_le_l; lra).
+    assert (P2 : bq r * (- eps_rt) <= bq r * (rt tbl u - u)) by (apply mul_le_l; lra).
+    assert (P3 : bq r * eps_rt <= 1 * eps_rt) by (apply Qmult_le_compat_r; lra).
+    assert (P4 : bq r * (- eps_rt) == - (bq r * eps_rt)) by ring.
+    split.
+    - rewrite Hx. apply Qabs_Qle_condition. split; lra.
+    - intro Hc. specialize (R2 Hc). pose proof (is_const_b r Hc) as Hb. rewrite Hb in Hx. lra.
+  Qed.
+End RoundTrip.
+
+Lemma pairs_ok_adjacent tbl : forall r n, pairs_ok tbl = true -> adjacent tbl r n -> row_rt_ok r n = true.
+Proof.
+  intros r n H [l1 [l2 ->]]. induction l1 as [|a l1 IH].
+  - cbn in H. apply andb_true_iff in H. tauto.
+  - apply IH. destruct l1 as [|b l1]; cbn [app pairs_ok] in H |- *; apply andb_true_iff in H; tauto.
+Qed.
+
+Lemma adjacent_in tbl r n : adjacent tbl r n -> In r tbl /\ In n tbl.
+Proof. intros [l1 [l2 ->]]. split; apply in_or_app; right; cbn; tauto. Qed.
+
+Lemma table_pairs_ok : pairs_ok table = true. Proof. vm_compute. reflexivity. Qed.
+Lemma table_last_ok : row_self_ok (last_row table) = true /\ In (last_row table) table /\ is_const (last_row table) = true.
+Proof. split; [vm_compute; reflexivity|]. split; [|vm_compute; reflexivity]. unfold last_row. vm_compute. tauto. Qed.
+
+(* ================================================================== round trips on the regenerated table *)
+Lemma skip_const r n : 0 <= jump_lo r n -> skip r n == 0.
+Proof.
+  intro H. unfold skip. fold (jump_lo r n). unfold Qmax.
+  destruct (Qle_bool 0 (- jump_lo r n)) eqn:E; [|reflexivity]. apply Qle_bool_iff in E. lra.
+Qed.
+
+Lemma utc_tai_utc_lemma : forall r n u, adjacent table r n -> rt_dom r n u ->
+  Qabs (tai2utc (utc2tai u) - u) <= eps_rt.
+Proof.
+  intros r n u Ha D. destruct (adjacent_in _ _ _ Ha) as [Hr Hn].
+  exact (proj1 (rt_generic table table_start table_chain r Hr n Hn (pairs_ok_adjacent _ _ _ table_pairs_ok Ha) u D)).
+Qed.
+
+Lemma utc_tai_utc_leap_lemma : forall r n u, adjacent table r n -> is_const r = true ->
+  r_start r <= u -> u < r_end r -> tai2utc (utc2tai u) == u.
+Proof.
+  intros r n u Ha Hc H1 H2. destruct (adjacent_in _ _ _ Ha) as [Hr Hn].
+  pose proof (pairs_ok_adjacent _ _ _ table_pairs_ok Ha) as Hok.
+  refine (proj2 (rt_generic table table_start table_chain r Hr n Hn Hok u _) Hc).
+  destruct (row_rt_ok_facts r n Hok) as (_ & _ & _ & _ & _ & _ & _ & F12).
+  destruct F12 as [F|[_ F]]; [congruence|].
+  pose proof (skip_const r n F) as Hs. unfold rt_dom, guard. rewrite Hc. lra.
+Qed.
+
+Lemma utc_tai_utc_last_lemma : forall u, r_start (last_row table) <= u -> u + 1 < r_end (last_row table) ->
+  tai2utc (utc2tai u) == u.
+Proof.
+  intros u H1 H2. destruct table_last_ok as (Hok & Hin & Hc).
+  assert (Hd : dmax (last_row table) < 1) by (vm_compute; reflexivity).
+  destruct (row_self_ok_facts _ Hok) as (F1 & _).
+  assert (Hm : delta_d (last_row table) u <= dmax (last_row table)) by (unfold dmax; apply delta_d_mono; lra).
+  refine (proj2 (proj2 (rt_caseA table table_start table_chain _ Hin u Hok _ _)) Hc).
+  - unfold guard. rewrite Hc. lra.
+  - lra.
+Qed.
+
+Lemma tai_utc_tai_lemma : forall r n u, adjacent table r n -> rt_dom r n u ->
+  Qabs (utc2tai (tai2utc (utc2tai u)) - utc2tai u) <= 2 * eps_rt.
+Proof.
+  intros r n u Ha D. destruct (adjacent_in _ _ _ Ha) as [Hr Hn].
+  exact (proj1 (rt_tai table table_start table_chain r Hr n Hn (pairs_ok_adjacent _ _ _ table_pairs_ok Ha) u D)).
+Qed.
+
+(* the domain is not empty and the excluded labels are exactly the two downward steps (values in seconds) *)
+Lemma skips_computed :
+  map (fun p => Qred (skip (fst p) (snd p) * day)) (combine table (tl table)) =
+  [1 # 20; 922929 # 250000000000000; 0; 0; 0; 0; 0; 0; 0; 0; 0; 1 # 10; 0; 0; 0; 0; 0; 0; 0; 0;
+   0; 0; 0; 0; 0; 0; 0; 0; 0; 0; 0; 0; 0; 0; 0; 0; 0; 0; 0; 0].
+Proof. vm_compute. reflexivity. Qed.
+
+(* witness: exactly at a stepped drift boundary (1963-11-01 0h UTC) the two-step inverse is off by the step *)
+Lemma drift_boundary_witness :
+  let u := (4876669 # 2) in
+  in_row u (nth 3 table dummy_row) = true /\ ~ Qabs (tai2utc (utc2tai u) - u) <= 1000000 * eps_rt.
+Proof. split; [vm_compute; reflexivity|]. intro H. vm_compute in H. apply H. reflexivity. Qed.
+
+(* ================================================================== morphisms *)
+Lemma delta_d_compat r x x' : x == x' -> delta_d r x == delta_d r x'.
+Proof. intro H. unfold delta_d, delta_s. rewrite H. reflexivity. Qed.
+
+Lemma utc2tai_compat x x' : x == x' -> utc2tai x == utc2tai x'.
+Proof.
+  intro H. unfold utc2tai, utc2tai_t, utc2tai_delta.
+  rewrite (find_row_compat table x x' H), (delta_d_compat _ x x' H), H. reflexivity.
+Qed.
+
+Lemma tai2utc_compat x x' : x == x' -> tai2utc x == tai2utc x'.
+Proof.
+  intro H. unfold tai2utc, tai2utc_t, tai2utc_delta.
+  rewrite (find_row_compat table x x' H).
+  set (r1 := find_row table x').
+  assert (Ht : x - delta_d r1 x == x' - delta_d r1 x') by (rewrite (delta_d_compat r1 x x' H), H; reflexivity).
+  rewrite (find_row_compat table _ _ Ht), (delta_d_compat _ _ _ Ht), H. reflexivity.
+Qed.
+
+(* ================================================================== routes *)
+Open Scope string_scope.
+Definition conv_tree (a b : string) : option (Q -> Q) :=
+  match a, b with
+  | "utc", "utc" => Some (fun x => x)
+  | "utc", "tai" => Some utc2tai
+  | "utc", "gps" => Some (fun x => tai2gps (utc2tai x))
+  | "utc", "tt" => Some (fun x => tai2tt (utc2tai x))
+  | "utc", "tcg" => Some (fun x => tt2tcg (tai2tt (utc2tai x)))
+  | "tai", "utc" => Some tai2utc
+  | "tai", "tai" => Some (fun x => x)
+  | "tai", "gps" => Some tai2gps
+  | "tai", "tt" => Some tai2tt
+  | "tai", "tcg" => Some (fun x => tt2tcg (tai2tt x))
+  | "gps", "utc" => Some (fun x => tai2utc (gps2tai x))
+  | "gps", "tai" => Some gps2tai
+  | "gps", "gps" => Some (fun x => x)
+  | "gps", "tt" => Some (fun x => tai2tt (gps2tai x))
+  | "gps", "tcg" => Some (fun x => tt2tcg (tai2tt (gps2tai x)))
+  | "tt", "utc" => Some (fun x => tai2utc (tt2tai x))
+  | "tt", "tai" => Some tt2tai
+  | "tt", "gps" => Some (fun x => tai2gps (tt2tai x))
+  | "tt", "tt" => Some (fun x => x)
+  | "tt", "tcg" => Some tt2tcg
+  | "tcg", "utc" => Some (fun x => tai2utc (tt2tai (tcg2tt x)))
+  | "tcg", "tai" => Some (fun x => tt2tai (tcg2tt x))
+  | "tcg", "gps" => Some (fun x => tai2gps (tt2tai (tcg2tt x)))
+  | "tcg", "tt" => Some tcg2tt
+  | "tcg", "tcg" => Some (fun x => x)
+  | _, _ => None
+  end.
+
+Lemma routes_total_lemma :
+  forallb (fun a => forallb (fun b => (a =? b) || match find_hops a b with
+                                      | Some hs => forallb (fun h => match hop_fn h with Some _ => true | None => false end) hs
+                                      | None => false end) scales) scales = true.
+Proof. vm_compute. reflexivity. Qed.
+
+Ltac in_scales H :=
+  unfold scales in H; cbn [In] in H;
+  repeat (destruct H as [<-|H]; [|]); [..|destruct H].
+
+Lemma route_lemma : forall a b x, In a scales -> In b scales ->
+  to_scale a b x = option_map (fun f => f x) (conv_tree a b) /\ conv_tree a b <> None.
+Proof.
+  intros a b x Ha Hb. in_scales Ha; in_scales Hb; (split; [reflexivity|discriminate]).
+Qed.
+
+(* ================================================================== path independence *)
+Definition exact_triple (a b c : string) : bool :=
+  if b =? "utc" then (a =? "utc") || (c =? "utc") else negb ((a =? "utc") && (c =? "utc")).
+
+Ltac hops_cbv H := cbv -[utc2tai tai2utc tai2tt tt2tai tt2tcg tcg2tt gps2tai tai2gps] in H.
+Ltac hop_arith :=
+  unfold gps2tai, tai2gps, tai2tt, tt2tai, tt2tcg, tcg2tt, tt2tcg_L, tcg2tt_L;
+  first [ reflexivity | ring | (field; exact LG_ne) ].
+Ltac finish_exact :=
+  first [ reflexivity
+        | (apply tai2utc_compat; hop_arith)
+        | hop_arith ].
+
+Lemma path_exact_lemma : forall a b c x y z w, In a scales -> In b scales -> In c scales ->
+  exact_triple a b c = true ->
+  to_scale a b x = Some y -> to_scale b c y = Some z -> to_scale a c x = Some w -> z == w.
+Proof.
+  intros a b c x y z w Ha Hb Hc He H1 H2 H3.
+  in_scales Ha; in_scales Hb; in_scales Hc; cbv in He; try discriminate He;
+    hops_cbv H1; injection H1 as <-; hops_cbv H2; injection H2 as <-; hops_cbv H3; injection H3 as <-;
+    finish_exact.
+Qed.
+
+(* utc -> b -> utc for every scale b *)
+Lemma utc_via_any_lemma : forall b r n u y z, In b scales -> adjacent table r n -> rt_dom r n u ->
+  to_scale "utc" b u = Some y -> to_scale b "utc" y = Some z -> Qabs (z - u) <= eps_rt.
+Proof.
+  intros b r n u y z Hb Ha D H1 H2.
+  pose proof (utc_tai_utc_lemma r n u Ha D) as R.
+  in_scales Hb; hops_cbv H1; injection H1 as <-; hops_cbv H2; injection H2 as <-.
+  - setoid_replace (u - u) with 0 by ring. apply eps_rt_pos.
+  - exact R.
+  - assert (E : tai2utc (gps2tai (tai2gps (utc2tai u))) == tai2utc (utc2tai u)) by (apply tai2utc_compat; hop_arith).
+    rewrite E. exact R.
+  - assert (E : tai2utc (tt2tai (tai2tt (utc2tai u))) == tai2utc (utc2tai u)) by (apply tai2utc_compat; hop_arith).
+    rewrite E. exact R.
+  - assert (E : tai2utc (tt2tai (tcg2tt (tt2tcg (tai2tt (utc2tai u))))) == tai2utc (utc2tai u)) by (apply tai2utc_compat; hop_arith).
+    rewrite E. exact R.
+Qed.
+
+(* a -> b -> a for scales other than utc: exact (instance of path_exact_lemma, stated for convenience) *)
+Lemma roundtrip_non_utc_lemma : forall a b x y z, In a scales -> In b scales ->
+  a <> "utc" -> b <> "utc" ->
+  to_scale a b x = Some y -> to_scale b a y = Some z -> z == x.
+Proof.
+  intros a b x y z Ha Hb Na Nb H1 H2.
+  assert (H3 : to_scale a a x = Some x) by (unfold to_scale; rewrite String.eqb_refl; reflexivity).
+  apply (path_exact_lemma a b a x y z x Ha Hb Ha); try assumption.
+  unfold exact_triple. destruct (b =? "utc") eqn:E; [apply String.eqb_eq in E; congruence|].
+  destruct (a =? "utc") eqn:E2; [apply String.eqb_eq in E2; congruence|]. reflexivity.
+Qed.
+
+(* element i of an array conversion depends on element i only: the index/zip formulation of delta_tai_utc
+   is the map of the scalar conversion *)
+Lemma argmax_row_find tbl x : nth (argmax_row tbl x) tbl dummy_row = find_row tbl x.
+Proof.
+  unfold argmax_row, find_row.
+  assert (G : forall l i, (forall j, (j < i)%nat -> True) ->
+              match find (in_row x) l with
+              | Some r => existsb (in_row x) l = true /\ forall pre, List.length pre = i -> nth (index_of x l i) (pre ++ l) dummy_row = r
+              | None => existsb (in_row x) l = false
+              end).
+  { induction l as [|a t IH]; intros i _; cbn [find existsb index_of]; [reflexivity|].
+    destruct (in_row x a) eqn:E.
+    - split; [reflexivity|]. intros pre <-. rewrite app_nth2 by lia. rewrite Nat.sub_diag. reflexivity.
+    - specialize (IH (S i) (fun _ _ => I)). destruct (find (in_row x) t).
+      + destruct IH as [IH1 IH2]. split; [assumption|]. intros pre Hl.
+        specialize (IH2 (pre ++ [a])%list). rewrite <- app_assoc in IH2. apply IH2.
+        rewrite app_length. cbn. lia.
+      + exact IH. }
+  specialize (G tbl O (fun _ _ => I)). destruct (find (in_row x) tbl).
+  - destruct G as [G1 G2]. rewrite G1. apply (G2 []). reflexivity.
+  - rewrite G. destruct tbl; reflexivity.
+Qed.
+
+Lemma utc2tai_list_pointwise tbl xs : utc2tai_list tbl xs = map (utc2tai_t tbl) xs.
+Proof.
+  unfold utc2tai_list. induction xs as [|x t IH]; [reflexivity|].
+  cbn [map combine fst snd]. rewrite IH. f_equal.
+  unfold utc2tai_t, utc2tai_delta. rewrite argmax_row_find. reflexivity.
+Qed.
+
+(* ================================================================== the float quirk is refuted by a witness *)
+Lemma float_quirk_witness :
+  let j1 := (24577535 # 10) in let j2 := dyq (Dy 9007199252655991 (-53)) in   (* 2016-12-31 23:59:59.99998 UTC *)
+  (F_utc2tai all_off j1 j2 - (j1 + j2)) * day == 36 /\
+  (F_utc2tai q_float j1 j2 - (j1 + j2)) * day == 37.
+Proof. split; vm_compute; reflexivity. Qed.
+
+Lemma F_all_off_is_spec j1 j2 :
+  F_utc2tai all_off j1 j2 = utc2tai (j1 + j2) /\ F_tai2utc all_off j1 j2 = tai2utc (j1 + j2).
+Proof. split; reflexivity. Qed.
+
+(* ================================================================== A -> utc -> C versus A -> C (UTC as the intermediate scale) *)
+Require Import Coq.Classes.Morphisms Coq.Setoids.Setoid.
+#[global] Instance utc2tai_proper : Proper (Qeq ==> Qeq) utc2tai. Proof. intros x y H. apply utc2tai_compat; assumption. Qed.
+#[global] Instance tai2utc_proper : Proper (Qeq ==> Qeq) tai2utc. Proof. intros x y H. apply tai2utc_compat; assumption. Qed.
+#[global] Instance tai2tt_proper : Proper (Qeq ==> Qeq) tai2tt. Proof. intros x y H. unfold tai2tt. rewrite H. reflexivity. Qed.
+#[global] Instance tt2tai_proper : Proper (Qeq ==> Qeq) tt2tai. Proof. intros x y H. unfold tt2tai. rewrite H. reflexivity. Qed.
+#[global] Instance gps2tai_proper : Proper (Qeq ==> Qeq) gps2tai. Proof. intros x y H. unfold gps2tai. rewrite H. reflexivity. Qed.
+#[global] Instance tai2gps_proper : Proper (Qeq ==> Qeq) tai2gps. Proof. intros x y H. unfold tai2gps. rewrite H. reflexivity. Qed.
+#[global] Instance tt2tcg_proper : Proper (Qeq ==> Qeq) tt2tcg. Proof. intros x y H. unfold tt2tcg, tt2tcg_L. rewrite H. reflexivity. Qed.
+#[global] Instance tcg2tt_proper : Proper (Qeq ==> Qeq) tcg2tt. Proof. intros x y H. unfold tcg2tt, tcg2tt_L. rewrite H. reflexivity. Qed.
+
+Definition eps_via : Q := 9 * ns.
+
+Definition k_tcg : Q := 1 + L_G / (1 - L_G).
+Lemma tcg_slope_small : k_tcg * (2 * eps_rt) <= eps_via /\ 0 <= k_tcg /\ 2 * eps_rt <= eps_via.
+Proof. repeat split; vm_compute; discriminate. Qed.
+
+Lemma abs_scale k d e : 0 <= k -> Qabs d <= e -> Qabs (k * d) <= k * e.
+Proof. intros Hk H. rewrite Qabs_Qmult, (Qabs_pos _ Hk). apply mul_le_l; assumption. Qed.
+
+Lemma via_utc_core p q :
+  Qabs (p - q) <= 2 * eps_rt ->
+  Qabs (p - q) <= eps_via /\ Qabs (tai2gps p - tai2gps q) <= eps_via /\ Qabs (tai2tt p - tai2tt q) <= eps_via /\
+  Qabs (tt2tcg (tai2tt p) - tt2tcg (tai2tt q)) <= eps_via.
+Proof.
+  intro H. destruct tcg_slope_small as (S1 & S2 & S3).
+  assert (H' : Qabs (p - q) <= eps_via) by (apply (Qle_trans _ (2 * eps_rt)); [exact H|exact S3]).
+  split; [exact H'|]. split; [|split].
+  - assert (E1 : tai2gps p - tai2gps q == p - q) by (unfold tai2gps; ring). rewrite E1. exact H'.
+  - assert (E2 : tai2tt p - tai2tt q == p - q) by (unfold tai2tt; ring). rewrite E2. exact H'.
+  - assert (E3 : tt2tcg (tai2tt p) - tt2tcg (tai2tt q) == k_tcg * (p - q)).
+    { unfold k_tcg, tt2tcg, tt2tcg_L, tai2tt. field. exact LG_ne. }
+    rewrite E3. apply (Qle_trans _ (k_tcg * (2 * eps_rt))); [apply abs_scale; [exact S2|exact H]|exact S1].
+Qed.
+
+Lemma via_utc_from_tai_lemma : forall c r n u y z w, In c scales ->
+  adjacent table r n -> rt_dom r n u ->
+  to_scale "tai" "utc" (utc2tai u) = Some y -> to_scale "utc" c y = Some z -> to_scale "tai" c (utc2tai u) = Some w ->
+  Qabs (z - w) <= eps_via.
+Proof.
+  intros c r n u y z w Hc Hadj D H1 H2 H3.
+  pose proof (tai_utc_tai_lemma r n u Hadj D) as T.
+  destruct (via_utc_core _ _ T) as (V1 & V2 & V3 & V4).
+  hops_cbv H1; injection H1 as <-.
+  in_scales Hc; hops_cbv H2; injection H2 as <-; hops_cbv H3; injection H3 as <-;
+    [ | exact V1 | exact V2 | exact V3 | exact V4 ].
+  setoid_replace (tai2utc (utc2tai u) - tai2utc (utc2tai u)) with 0 by ring. vm_compute. discriminate.
+Qed.
